@@ -3,7 +3,7 @@
    processed the history cs (from an empty table); `run init cs` gives all answers in order
    (run_outputs: its i-th output is `answer (firstn i cs) (nth i cs)`). *)
 From Coq Require Import NArith List Bool.
-From C27 Require Import Model Proofs.
+From C27 Require Import Model Proofs ProofsWindow.
 Import ListNotations.
 Local Open Scope N_scope.
 
@@ -15,14 +15,7 @@ Theorem C27_exact : forall s c p,
   in_window s c = true /\
   exists h', retained s (c_slot c) (c_signer c) = Some h' /\ h' <> c_hdr c /\
              p = mkproof (c_slot c) (c_signer c) h' (c_hdr c).
-Proof.
-  intros s c p. rewrite check_answer. unfold answer_of. split.
-  - destruct (in_window s c); [|discriminate].
-    destruct (retained s (c_slot c) (c_signer c)) as [h'|]; [|discriminate].
-    destruct (h' =? c_hdr c) eqn:E; [discriminate|]. intros H. injection H as <-.
-    split; [reflexivity|]. exists h'. apply N.eqb_neq in E. auto.
-  - intros [W [h' [R [N P]]]]. rewrite W, R. apply N.eqb_neq in N. rewrite N. subst p. reflexivity.
-Qed.
+Proof. exact exact_state. Qed.
 Print Assumptions C27_exact.
 
 (* How the retained records evolve: a check is recorded iff it is in the window and nothing is
@@ -35,11 +28,7 @@ Theorem C27_retained_step : forall s c slot sg,
     else if (c_slot c =? slot) && (c_signer c =? sg) then Some (c_hdr c)
     else retained s slot sg
   else retained s slot sg.
-Proof.
-  intros. destruct (records s c) eqn:R.
-  - apply check_recorded_retained. exact R.
-  - rewrite check_not_recorded by exact R. reflexivity.
-Qed.
+Proof. exact retained_step. Qed.
 Print Assumptions C27_retained_step.
 
 (* Every history: a returned proof names the checked slot, signer and header, and its first
@@ -72,6 +61,60 @@ Theorem C27_run_outputs : forall cs i c, nth_error cs i = Some c ->
   nth_error (snd (run init cs)) i = Some (answer (firstn i cs) c).
 Proof. exact run_outputs. Qed.
 Print Assumptions C27_run_outputs.
+
+(* ---- second-round additions ---- *)
+
+(* EVERY history (no hypothesis on the order of current slots or on future headers, any length):
+   the answers of CheckEquivocation are exactly those of the window specification `a_step`
+   (Model.v): a proof iff the check is inside the window (not older than max_slot_capacity, not
+   before the first saved slot) and a different header is recorded for (slot, signer); a check is
+   recorded iff it is inside the window and nothing is recorded for (slot, signer); recording
+   moves the first saved slot to now - max_slot_capacity when it is pruning_bound or more behind
+   and forgets the slots in between.  No database representation is involved in `a_step`. *)
+Theorem C27_window_spec : forall cs, snd (run init cs) = spec_answers cs.
+Proof. exact window_spec. Qed.
+Print Assumptions C27_window_spec.
+
+(* Re-checking an identical header never yields a proof, every history: a check that was not
+   answered with a proof is not answered with one when it is repeated (same current slot) ... *)
+Theorem C27_recheck_identical : forall cs c, answer cs c = None -> answer (cs ++ [c]) c = None.
+Proof. exact recheck_identical. Qed.
+Print Assumptions C27_recheck_identical.
+
+(* ... and, when it was inside the window, not at ANY later or earlier current slot either *)
+Theorem C27_recheck_any_time : forall cs c c',
+  in_window (fst (run init cs)) c = true -> answer cs c = None ->
+  c_slot c' = c_slot c -> c_signer c' = c_signer c -> c_hdr c' = c_hdr c ->
+  answer (cs ++ [c]) c' = None.
+Proof. exact recheck_in_window. Qed.
+Print Assumptions C27_recheck_any_time.
+
+(* the retained-window invariant of sequential histories (DESIGN.md: "invariant on the retained
+   window"): the first saved slot never exceeds the current slot, and for every slot not older
+   than max_slot_capacity the record of (slot, signer) is the FIRST header ever checked for it *)
+Theorem C27_window_invariant : forall cs, sequential cs = true ->
+  let s := fst (run init cs) in let t := fold_left (fun _ c => c_now c) cs 0 in
+  (forall f, start s = Some f -> f <= t) /\
+  (forall slot sg, t <= slot + max_slot_capacity -> retained s slot sg = first_hdr cs slot sg).
+Proof. exact seq_window_invariant. Qed.
+Print Assumptions C27_window_invariant.
+
+(* uint64: on 64-bit slots the table never holds a slot or first saved slot >= 2^64, and the one
+   unguarded-looking subtraction `slotNow - firstSavedSlot` is only evaluated with
+   slotNow >= firstSavedSlot: the model's exact arithmetic on N is the Go arithmetic on uint64 *)
+Theorem C27_u64_closed : forall s c, st_u64 s = true -> chk_u64 c = true ->
+  st_u64 (fst (check s c)) = true /\ (records s c = true -> first_saved s (c_slot c) <= c_now c).
+Proof. intros s c Hs Hc. split; [apply u64_closed; assumption | apply guarded_sub]. Qed.
+Print Assumptions C27_u64_closed.
+
+(* non-vacuity of the additions: a chaotic history (time goes back, header from the future) on
+   which the window specification yields a proof, and a sequential one *)
+Example C27_window_nonvacuous :
+  let cs := [mkchk 1500 1500 1 0; mkchk 700 1600 2 0; mkchk 1600 1600 3 0; mkchk 1500 1500 2 0; mkchk 4000 1500 1 0] in
+  sequential cs = false /\
+  spec_answers cs = [None; None; None; Some (mkproof 1500 0 1 2); None] /\
+  snd (run init cs) = spec_answers cs.
+Proof. vm_compute. repeat split; reflexivity. Qed.
 
 (* non-vacuity: duplicate, equivocation, pruning at the 2*1000 bound, and a missed
    equivocation after pruning (outside the retained window) *)
